@@ -887,6 +887,27 @@ func (x *expander) shareResults(cl *cloner, as *ast.AssignStmt, call *ast.CallEx
 					}
 					o = x.info.Uses[id]
 				}
+				// the zero value a failure return yields in this position (`return T{}, err`): the shared variable
+				// is set to it there, which is what the caller observes
+				if cl, isLit := e.(*ast.CompositeLit); isLit && len(cl.Elts) == 0 {
+					continue
+				}
+				if tv, has := x.info.Types[e]; has && tv.Value != nil {
+					switch tv.Value.Kind() {
+					case constant.Bool:
+						if !constant.BoolVal(tv.Value) {
+							continue
+						}
+					case constant.String:
+						if constant.StringVal(tv.Value) == "" {
+							continue
+						}
+					case constant.Int, constant.Float:
+						if constant.Sign(tv.Value) == 0 {
+							continue
+						}
+					}
+				}
 			case len(r.Results) == 0 && len(named) == n:
 				o = named[i]
 			}
@@ -2052,7 +2073,19 @@ func (x *expander) unrollTable(rs *ast.RangeStmt) []ast.Stmt {
 			x.info.Types[idx] = types.TypeAndValue{Type: types.Typ[types.Int], Value: constant.MakeInt64(int64(i))}
 			row = append(row, &ast.AssignStmt{Lhs: []ast.Expr{id}, TokPos: at, Tok: token.DEFINE, Rhs: []ast.Expr{idx}})
 		}
-		if id, ok := cp.Value.(*ast.Ident); ok && id.Name != "_" {
+		if id, ok := cp.Value.(*ast.Ident); ok && id.Name != "_" && x.calledOnly(cp.Body, x.info.Defs[id]) && x.isMethodValue(elt) {
+			// a row that is a method value (`n.sendRequest`) and a body that only calls the loop variable: the call is
+			// the method call
+			vo := x.info.Defs[id]
+			ast.Inspect(cp.Body, func(n ast.Node) bool {
+				if call, isCall := n.(*ast.CallExpr); isCall {
+					if fid, isID := ast.Unparen(call.Fun).(*ast.Ident); isID && x.info.Uses[fid] == vo {
+						call.Fun = cl.node(elt).(ast.Expr)
+					}
+				}
+				return true
+			})
+		} else if id, ok := cp.Value.(*ast.Ident); ok && id.Name != "_" {
 			row = append(row, &ast.AssignStmt{Lhs: []ast.Expr{id}, TokPos: at, Tok: token.DEFINE, Rhs: []ast.Expr{elt}})
 		} else if containsCall(elt) {
 			row = append(row, &ast.AssignStmt{Lhs: []ast.Expr{&ast.Ident{NamePos: at, Name: "_"}}, TokPos: at, Tok: token.ASSIGN, Rhs: []ast.Expr{elt}})
@@ -2090,6 +2123,41 @@ func (x *expander) unrollTable(rs *ast.RangeStmt) []ast.Stmt {
 	}
 	out = append(out, labeled(end, rs.End()))
 	return out
+}
+
+// calledOnly: every use of variable v inside body is the callee of a call.
+func (x *expander) calledOnly(body ast.Node, v types.Object) bool {
+	if v == nil {
+		return false
+	}
+	uses, calls := 0, 0
+	ast.Inspect(body, func(n ast.Node) bool {
+		switch t := n.(type) {
+		case *ast.Ident:
+			if x.info.Uses[t] == v {
+				uses++
+			}
+		case *ast.CallExpr:
+			if id, ok := ast.Unparen(t.Fun).(*ast.Ident); ok && x.info.Uses[id] == v {
+				calls++
+			}
+		}
+		return true
+	})
+	return uses > 0 && uses == calls
+}
+
+// isMethodValue: e is `x.m` denoting a method bound to the variable x (no call, no indirection to evaluate).
+func (x *expander) isMethodValue(e ast.Expr) bool {
+	sel, ok := ast.Unparen(e).(*ast.SelectorExpr)
+	if !ok {
+		return false
+	}
+	if s := x.info.Selections[sel]; s == nil || s.Kind() != types.MethodVal {
+		return false
+	}
+	_, isID := ast.Unparen(sel.X).(*ast.Ident)
+	return isID
 }
 
 // rangeOverFunc rewrites `for k, v := range seq(args) { body }`, where seq is
